@@ -572,10 +572,17 @@ func (g *G) callArgs(c *N, np int, kw []string, depth int, slotsAllowed bool) {
 		c.Star = append(c.Star, 0)
 	}
 	kwWithSlots := 0
+	var kwList []string
 	for _, k := range kw {
 		if !g.t.Chance(2, 3) {
 			continue
 		}
+		kwList = append(kwList, k)
+		if g.t.Chance(1, 6) {
+			kwList = append(kwList, k) // the same keyword once more: evaluated, then ignored
+		}
+	}
+	for _, k := range kwList {
 		if g.t.Chance(1, 4) && kwWithSlots == 0 {
 			// pass through `**{k: e}`; sometimes twice with the same key (the first occurrence wins)
 			for rep := 1 + g.t.Pick(3, 1); rep > 0; rep-- {
